@@ -96,7 +96,7 @@ func VerifFeedOnce() {
 			pcalls = append(pcalls, pc)
 			return pc.ret, nil
 		},
-		LogSigVerifier: &rt.Verifier{K: key, N: origin},
+		LogSigVerifier: &rt.Verifier{K: key, N: rt.UFStr("keyName", key)},
 		LogOrigin:      origin,
 		Witness:        w,
 	}
